@@ -12,9 +12,15 @@ use std::mem;
 use std::net::IpAddr;
 use std::num::NonZeroUsize;
 use std::sync::Arc;
+#[cfg(not(pgcat_verif))]
 use std::time::SystemTime;
+#[cfg(pgcat_verif)]
+use crate::verif::clock::SystemTime;
 use tokio::io::{AsyncRead, AsyncReadExt, AsyncWrite, BufStream};
+#[cfg(not(pgcat_verif))]
 use tokio::net::TcpStream;
+#[cfg(pgcat_verif)]
+use crate::verif::net::TcpStream;
 use tokio_rustls::rustls::{OwnedTrustAnchor, RootCertStore};
 use tokio_rustls::{client::TlsStream, TlsConnector};
 
